@@ -233,6 +233,7 @@ func runBatchSequential(ctx context.Context, node Node, items []Result, results 
 		if ctx.Err() != nil {
 			results[i] = NewErrorResult(fmt.Errorf("context cancelled"))
 			if errorHandling == "stop" {
+				markUnprocessed(results[i+1:], "context cancelled")
 				break
 			}
 			continue
@@ -242,6 +243,7 @@ func runBatchSequential(ctx context.Context, node Node, items []Result, results 
 		if err != nil {
 			results[i] = NewErrorResult(err)
 			if errorHandling == "stop" {
+				markUnprocessed(results[i+1:], "batch stopped due to error")
 				break
 			}
 		} else {
@@ -251,6 +253,14 @@ func runBatchSequential(ctx context.Context, node Node, items []Result, results 
 				results[i] = NewResult(execResult)
 			}
 		}
+	}
+}
+
+// markUnprocessed records an error for items that were skipped because the
+// batch stopped early, so they are never reported to Post as successes.
+func markUnprocessed(results []Result, reason string) {
+	for i := range results {
+		results[i] = NewErrorResult(fmt.Errorf("%s", reason))
 	}
 }
 
